@@ -20,11 +20,12 @@ EXPLANATION = (
     "inputs on every path of forward and diagonal (the diagonal may see the raw input only on the edge where the inner "
     "diagonal does not depend on it), so that diagonal(X) and diag(K(X, X)) are the same function; S6 joint samples are mean + L z: the lower Cholesky factor "
     "of the posterior covariance multiplies the standard-normal draws from the left (orientation typing L / U / N - the factor "
-    "is square, so shape typing cannot see a missing transpose). "
+    "is square, so shape typing cannot see a missing transpose); S7 the jitter search adds diagonal-typed terms only to the "
+    "matrix (diag / eye * c / a helper returning one): a scalar term would be broadcast to every entry. "
     "NOT decided (the bulk of C08): that means, variances, likelihood values and updates equal the textbook expressions - "
     "a wrong sign, factor or a mathematically wrong but shape-correct formula is invisible to these rules.")
 
-FLOOR = {"S1": 3, "S2": 4, "S3": 8, "S4": 5, "S5": 2, "S6": 1}
+FLOOR = {"S1": 3, "S2": 4, "S3": 8, "S4": 5, "S5": 2, "S6": 1, "S7": 1}
 
 MODP = "syne_tune.optimizer.schedulers.searchers.bayesopt.gpautograd.posterior_utils."
 
@@ -265,6 +266,57 @@ def s6(ctx, rep):
         raise AnchorError(f"sample_posterior_joint: {n} products of the Cholesky factor with the normal draws found (1 confirmed)")
 
 
+def s7(ctx, rep):
+    """the jitter search changes the diagonal only: in AddJitterOp the matrix is summed only with DIAG-typed terms
+    (diag(v), eye(n) * c, a local helper that returns one) - a scalar term would be broadcast to every entry"""
+    P = ctx.P
+    f = P.func("syne_tune.optimizer.schedulers.searchers.bayesopt.gpautograd.custom_op.AddJitterOp")
+    # the matrix: the reshaped input
+    mats = set()
+    for x in walk_shallow(f.node):
+        if isinstance(x, ast.Assign):
+            tg, vs = x.targets[0], x.value
+            pairs = list(zip(tg.elts, vs.elts)) if isinstance(tg, ast.Tuple) and isinstance(vs, ast.Tuple) and len(tg.elts) == len(vs.elts) else [(tg, vs)]
+            for t_, v_ in pairs:
+                if isinstance(t_, ast.Name) and isinstance(v_, ast.Call) and fn_name(v_) == "reshape":
+                    mats.add(t_.id)
+    if not mats:
+        raise AnchorError("AddJitterOp: the reshaped input matrix not found")
+
+    def is_diag(e, depth=3):
+        if isinstance(e, ast.Call) and fn_name(e) in ("diag", "eye", "identity", "diagflat"):
+            return True
+        if isinstance(e, ast.BinOp) and isinstance(e.op, ast.Mult):
+            return is_diag(e.left, depth) or is_diag(e.right, depth)
+        if isinstance(e, ast.Call) and isinstance(e.func, ast.Name) and e.func.id in f.nested and depth > 0:
+            h = f.nested[e.func.id]
+            rs = returns_of(h)
+            return bool(rs) and all(r.value is not None and is_diag(r.value, depth - 1) for r in rs)
+        if isinstance(e, ast.Name) and depth > 0:
+            ds = [d for d in local_defs(f, e.id) if not isinstance(d, tuple)]
+            return bool(ds) and all(is_diag(d, depth - 1) for d in ds)
+        return False
+
+    def terms(e):
+        if isinstance(e, ast.BinOp) and isinstance(e.op, ast.Add):
+            return terms(e.left) + terms(e.right)
+        return [e]
+    n = 0
+    for x in walk_shallow(f.node, include_lambda=True):
+        if isinstance(x, ast.BinOp) and isinstance(x.op, ast.Add) and not (isinstance(getattr(x, "_parent", None), ast.BinOp)
+                                                                              and isinstance(x._parent.op, ast.Add)):
+            ts = terms(x)
+            if not any(isinstance(t, ast.Name) and t.id in mats for t in ts):
+                continue
+            n += 1
+            bad = [t for t in ts if not (isinstance(t, ast.Name) and t.id in mats) and not is_diag(t)]
+            rep.put(not bad, "S7", "shape", "AddJitterOp: the matrix is summed with diagonal terms only", f, x, U(x)[:80],
+                    f"`{U(bad[0]) if bad else ''}` in `{U(x)[:80]}` is not a diagonal matrix: a scalar (or full) term is added to every entry, the "
+                    "off-diagonal covariances change and the factor is no longer that of K + sigma^2 I")
+    if n < 1:
+        raise AnchorError("AddJitterOp: no sum involving the input matrix found")
+
+
 def run(ctx, rep, tier="quick"):
     s1(ctx, rep)
     s2(ctx, rep)
@@ -273,3 +325,4 @@ def run(ctx, rep, tier="quick"):
     s4(ctx, rep)
     s5(ctx, rep)
     s6(ctx, rep)
+    s7(ctx, rep)
